@@ -83,7 +83,22 @@ def gen_poly_struct(rng, names, shape, nterms, maxexp, lead_ok=False, zero_elems
 
 
 def gen_case(rng, i):
-    mode = gen.choice(rng, ["general", "incomparable", "exact", "constant", "univariate", "array"], p=[.25, .15, .2, .1, .15, .15])
+    mode = gen.choice(rng, ["general", "incomparable", "exact", "constant", "univariate", "array", "sparse"], p=[.22, .13, .18, .1, .12, .13, .12])
+    if mode == "sparse":
+        # few terms, high degree: many more reduction steps than terms (leading coefficient +-1 keeps every step exact)
+        names = [0] if rng.random() < .7 else [0, 1]
+        w = len(names)
+        top = int(rng.integers(8, 25))
+        mono = lambda e, c: [[e] + [0] * (w - 1), [c]]
+        a = {"names": names, "shape": [], "dtype": "float64", "kind": "float", "as": "poly",
+             "terms": [mono(top, int(gen.choice(rng, [1, 2, 3])))] + [mono(int(rng.integers(0, 3)), int(gen.choice(rng, [-1, 1, 2])))] +
+                      ([[[1] + [1] * (w - 1), [1]]] if w == 2 and rng.random() < .5 else [])}
+        seen = set()
+        a["terms"] = [t for t in a["terms"] if not (tuple(t[0]) in seen or seen.add(tuple(t[0])))]
+        d = int(rng.integers(1, 4))
+        b = {"names": names, "shape": [], "dtype": "float64", "kind": "float", "as": "poly",
+             "terms": [mono(d, int(gen.choice(rng, [1, -1])))] + [mono(0, int(gen.choice(rng, [-2, -1, 1, 2])))]}
+        return {"id": i, "kind": "c05", "mode": mode, "a": a, "b": b}
     k = 1 if mode == "univariate" else int(rng.integers(1, 4))
     names = sorted(int(x) for x in rng.choice([0, 1, 2], size=k, replace=False))
     sa, sb = (gen.gen_shape_pair(rng) if mode in ("array", "general") and rng.random() < .6 else ((), ()))
@@ -215,6 +230,9 @@ def check_operators(ctx, rng, n):
         num = gen.choice(rng, [4.0, numpy.array(6.0), numpy.array([2.0, 8.0]), [2.0, 4.0], 3])
         arr_div = gen.choice(rng, [numpy.array([2.0, 0.0, 4.0]), numpy.array([[1.5], [0.0]]), numpy.array([0.0, 0.0]), numpy.array([2.0, -4.0]), [0.5, 0.0]])
         A = gen.materialize(gen_poly_struct(rng, [0, 1], gen.choice(rng, [(), (1,)]), 3, 2))
+        # integer-coefficient divisor with a fractional number / list / array on the left (reflected operators)
+        bi = numpoly.polynomial([2, q0, 4]) if rng.random() < .5 else numpoly.polynomial(2 * q0 + int(rng.integers(1, 4)))
+        fnum = gen.choice(rng, [7.5, -2.25, [1.5, 2.5, 3.0] if bi.shape else [1.5], numpy.array(0.75)])
         ctx.evaluations += 1
         try:
             qd, rd = numpoly.poly_divmod(a, b)
@@ -224,6 +242,11 @@ def check_operators(ctx, rng, n):
                      ("reflected /", num / b, numpoly.poly_divide(num, b)), ("reflected %", num % b, numpoly.poly_remainder(num, b)),
                      ("reflected divmod[0]", divmod(num, b)[0], numpoly.poly_divmod(num, b)[0]),
                      ("reflected divmod[1]", divmod(num, b)[1], numpoly.poly_divmod(num, b)[1]),
+                     ("reflected / (float left, int polynomial)", fnum / bi, numpoly.poly_divide(fnum, bi)),
+                     ("reflected % (float left, int polynomial)", fnum % bi, numpoly.poly_remainder(fnum, bi)),
+                     ("reflected divmod[0] (float left, int polynomial)", divmod(fnum, bi)[0], numpoly.poly_divmod(fnum, bi)[0]),
+                     ("reflected divmod[1] (float left, int polynomial)", divmod(fnum, bi)[1], numpoly.poly_divmod(fnum, bi)[1]),
+                     ("reflected identity (float left, int polynomial)", divmod(fnum, bi)[0] * bi + divmod(fnum, bi)[1], numpoly.polynomial(fnum) + 0 * bi),
                      ("poly / number", a / 2.0, numpoly.poly_divide(a, 2.0)),
                      ("poly % numeric array", A % arr_div, numpoly.poly_remainder(A, arr_div)),
                      ("poly / numeric array", A / arr_div, numpoly.poly_divide(A, arr_div)),
